@@ -18,7 +18,7 @@ def registry():
     for name in ("C02", "C04", "C08", "C13", "C18"):
         if hasattr(C, "check_" + name):
             reg[name] = getattr(C, "check_" + name)
-    for mod in ("check_mocks", "check_pure", "check_runner", "check_xml", "check_misc", "check_containers", "check_params", "check_doubles", "check_timeout"):
+    for mod in ("check_mocks", "check_pure", "check_runner", "check_xml", "check_misc", "check_containers", "check_params", "check_doubles", "check_timeout", "check_faults"):
         try:
             m = __import__(mod)
         except ImportError:
